@@ -2,7 +2,7 @@
 PID = "C10"
 EXTRA_TARGETS = ("BS.Properties.C10m",)
 CASE_LIMIT = {"C10": 90}   # seconds: these cases are function calls, not sessions
-RULE = ("sort: inputs of 0..60 rows (keys 0..9, many equal), canary 1..8, spill target 1..400 bytes, spill batch 1..8, "
+RULE = ("int64 keys and (a fifth of the cases again) int16/uint16/int32/uint32/int/uint64/uint/string/int8/uint8 keys; sort: inputs of 0..60 rows (keys 0..9, many equal), canary 1..8, spill target 1..400 bytes, spill batch 1..8, "
         "upstream scripts with zero-row reads and both EOF placements, injected read errors; merge: 0..5 sorted streams "
         "(some empty), spill batch 1..8, scripts without zero-row reads; reduce: 0..5 streams each sorted with unique keys; "
         "all drained with random destination sizes into poisoned frames; spill directories counted after creation; "
@@ -31,8 +31,22 @@ def script(r, zero_ok, fail):
     return " SCRIPT " + " ".join(steps)
 
 
+TYPED = ["i16", "u16", "i32", "u32", "int", "u64", "str", "i8", "u8", "uint"]
+
+
 def gen(r, tier):
     n = 2500 if tier == "quick" else 50000
+    for c in _gen_i64(r, n):
+        yield c
+    # the same three readers over other key types (typed, monotone images of the keys, spread over all bytes of the type)
+    for j, c in enumerate(_gen_i64(r, n // 5)):
+        if "err" in c or "tmp" in c:
+            continue
+        kind, _, rest = c.partition(" ")
+        yield "%s K=%s %s" % (kind, TYPED[j % len(TYPED)], rest)
+
+
+def _gen_i64(r, n):
     for i in range(n):
         dest = "DEST " + " ".join(str(r.rng(1, 7)) for _ in range(r.rng(1, 3)))
         fail = r.chance(1, 12)
